@@ -77,6 +77,10 @@ def main():
                                    {"codemod": c["cid"], "template": c["template"], "before": c["src"], "after": after, "observed_before": o1, "observed_after": o2}, jobs=[{k: v for k, v in j.items()}]))
         elif len(samples) < 4 and len(o1[1]) > 10 and c["cid"] not in {s["codemod"] for s in samples}:
             samples.append({"codemod": c["cid"], "shape": c["shape"], "value_class": c["vclass"], "before": c["src"], "after": after, "observation": o1})
+    # a partially applied rewrite of a program whose FULL rewrite already diverges shows the same mechanism: it is keyed like the full one
+    base_div = {(x.witness["codemod"], x.witness["before"]) for x in viols if not x.key.split("/")[-2:-1] == ["one-line-excluded"] and "/one-line-excluded/" not in x.key}
+    for x in viols:
+        if "/one-line-excluded/" in x.key and (x.witness["codemod"], x.witness["before"]) in base_div: x.key = x.key.replace("/one-line-excluded/", "/")
     never = sorted({c["cid"] for c in cases} - {k[6:] for k in fired})
     stats = dict(fired); stats.update({"programs_generated": len(cases), "programs_rewritten": len(pairs), "programs_left_unchanged": sum(unchanged.values()), "codemods_never_fired": never})
     return finish("C08", "translation_validation", tier, seed, t0, evaluations=len(cases), nontrivial=nontrivial, violations=viols, min_nontrivial=60, counters=counters, deciding_counters=("pipe_libcst",),
